@@ -109,6 +109,35 @@ def gen_composite_case(rnd):
     return f, gen_query(rnd, f)
 
 
+def gen_detail_case(rnd):
+    """targeted family: a DETAIL table -- the child's own composite primary key contains its foreign key (order lines keyed by (order id, line number)) -- declared
+    one_to_many on the parent or many_to_one on the child, several lines per parent row; a sum / avg / count of the PARENT reaching the lines (dimension or filter
+    on the lines): the hop still fans the parent out"""
+    f = jg.gen_forest(rnd, nmodels=2, allow_m2m=False)
+    parent, child = f["models"][0], f["models"][1]
+    parent["composite"], child["composite"] = False, False
+    parent.pop("pk", None)
+    child["pk"] = ["fk_a", "id"]
+    if rnd.random() < 0.5:
+        parent["rels"], child["rels"] = [dict(name=child["name"], type="one_to_many", foreign_key="fk_a")], []
+    else:
+        parent["rels"], child["rels"] = [], [dict(name=parent["name"], type="many_to_one", foreign_key="fk_a")]
+    n = rnd.choice([2, 3, 4])
+    parent["rows"] = [[r + 1, "k%d" % (r + 1), rnd.choice([1, 2, 5, 10]), rnd.choice([0, 1, 2]), rnd.choice(["a", "a", "b"]), None, None] for r in range(n)]
+    child["rows"] = []
+    for i in range(rnd.choice([3, 4, 6])):
+        k = 1 if i < 2 else rnd.randint(1, n)              # the first parent row has at least two lines
+        child["rows"].append([i + 1, "k%d" % (i + 1), rnd.choice([1, 2, 5]), rnd.choice([0, 1, 2]), rnd.choice(["x", "y"]), k, "k%d" % k])
+    f["links"] = [(1, 0, "m2o", False)]
+    agg = rnd.choice(["sum", "avg", "count", "sum"])
+    mets = [(parent["name"], agg, None if agg == "count" else jg.jcol("c0"), [])]
+    if rnd.random() < 0.5:
+        q = dict(dims=[(child["name"], jg.jcol("s0"))], mets=mets, filters=[])
+    else:
+        q = dict(dims=[(parent["name"], jg.jcol("s0"))] if rnd.random() < 0.5 else [], mets=mets, filters=[(child["name"], ("not", ("isnull", jg.jcol("id"))))])
+    return f, q
+
+
 def gen_mixed_query(rnd, f):
     """a base-model metric with the other models referenced in the order [fan-out child, non-fan-out parent] (or the reverse): the
     fan-out verdict must be accumulated over ALL joined models, whichever comes last.  None when the forest has no such triple."""
@@ -246,7 +275,7 @@ def run(c):
         f = jg.gen_forest(c.rng)
         q = gen_mixed_query(c.rng, f) if c.rng.random() < 0.25 else None
         cases.append((f, q or gen_query(c.rng, f, single_metric_model=c.rng.random() < 0.7)))
-    cases += [gen_m2m_case(c.rng) for _ in range(max(10, n // 10))] + [gen_composite_case(c.rng) for _ in range(max(10, n // 10))]
+    cases += [gen_m2m_case(c.rng) for _ in range(max(10, n // 10))] + [gen_composite_case(c.rng) for _ in range(max(10, n // 10))] + [gen_detail_case(c.rng) for _ in range(max(10, n // 10))]
     cf = jg.corpus_forest()
     cases[:0] = [
         (cf, dict(dims=[("mb", jg.jcol("s0"))], mets=[("ma", "sum", jg.jcol("c0"), [])], filters=[])),                       # K1: non-base metric through many_to_one
